@@ -323,13 +323,15 @@ def run_events(item: Dict[str, Any], work: Path, out_path: Path) -> Dict[str, An
 
     seed = item["seed"]
     rng = random.Random(seed)
+    suffix = item.get("suffix", item["id"])
+    again = bool(item.get("_again"))
     if item.get("scenario"):
-        rp = world.load(Path(item["scenario"]), work / "out", write_outputs=True, suffix=item["id"], time_step_stats=True)
+        rp = world.load(Path(item["scenario"]), work / "out", write_outputs=True, suffix=suffix, time_step_stats=True, keep_existing=again)
         gens = None
     else:
         w = adv.gen_world(rng, n_steps=item["steps"], **(item.get("world_kwargs") or {}))
         scen = world.write_world(work / f"world_{item['id']}", w)
-        rp = world.load(scen, work / "out", write_outputs=True, suffix=item["id"], time_step_stats=True)
+        rp = world.load(scen, work / "out", write_outputs=True, suffix=suffix, time_step_stats=True, keep_existing=again)
         if w.get("preload"):
             rp = runs.preload_requests(rp, w["preload"])
         gens = []
@@ -377,5 +379,16 @@ def run_events(item: Dict[str, Any], work: Path, out_path: Path) -> Dict[str, An
                            separators=(",", ":")) + "\n")
     import shutil
 
+    rerun = None
+    if item.get("rerun") and not again:
+        # the same scenario once more INTO THE SAME OUTPUT DIRECTORY (a user re-using an output suffix): hive refuses that
+        # (the directory exists); were it accepted, the second run's log must still account for the second run alone
+        try:
+            rerun = run_events(dict(item, id=item["id"] + "_again", suffix=suffix, _again=True, rerun=False), work, out_path)
+        except FileExistsError:
+            rerun = "refused"
     shutil.rmtree(out_dir, ignore_errors=True)
+    if rerun is not None:
+        return {"steps": len(steps), "log_blocks": len(blocks), "rerun": rerun if isinstance(rerun, str) else "accepted",
+                "events": sum(len(b["moves"]) + len(b["charges"]) + len(b["pickups"]) for b in blocks)}
     return {"steps": len(steps), "log_blocks": len(blocks), "events": sum(len(b["moves"]) + len(b["charges"]) + len(b["pickups"]) for b in blocks)}
